@@ -1190,6 +1190,63 @@ def gen_group(repo: Path, notes: list, *, src_file: str, cls_name: str | None, f
     return "\n".join(out)
 
 
+def _find_module_func(repo: Path, rel: str, name: str):
+    def find(_tree, _cls):
+        try:
+            tree = ast.parse((repo / rel).read_text())
+        except Exception:
+            return None
+        return next((n for n in tree.body if isinstance(n, ast.FunctionDef) and n.name == name), None)
+    return find
+
+
+def _is_options_dict_start(st) -> bool:
+    """`options = {}` — where `Options.__init__` stops normalising its arguments and starts storing them"""
+    return (isinstance(st, ast.Assign) and len(st.targets) == 1 and isinstance(st.targets[0], ast.Name)
+            and st.targets[0].id == "options" and isinstance(st.value, ast.Dict) and not st.value.keys)
+
+
+def gen_options(repo: Path, notes: list, gate_ok: bool) -> str:
+    """Gen/Options.lean: the normalising part of `Options.__init__` (result: the locals as a record), and the
+    `RuntimeContext` methods that account for depth / routes and collect errors"""
+    src = "utype/parser/options.py"
+    tree = ast.parse((repo / src).read_text())
+    out = obj_file_header("utype/parser/options.py (Options.__init__ normalisation; RuntimeContext)", "Options")
+    body = []
+    # --- Options
+    part = gen_group(
+        repo, notes, src_file=src, cls_name="Options", ns="Options", title="",
+        funcs=[
+            {"py": "multi", "find": _find_module_func(repo, "utype/utils/functional.py", "multi"), "has_self": False,
+             "src_file": "utype/utils/functional.py", "arity": 1},
+            {"py": "__init__", "lean": "Options_init", "stop_before": _is_options_dict_start, "kw": True, "arity": 1,
+             "doc": " up to (not including) `options = {}`: the keyword arguments after normalisation, as a record"},
+        ],
+        ignored_calls={"warning_settings.warn"}, gate_ok=gate_ok)
+    body += _group_body(part)
+    # --- RuntimeContext
+    part = gen_group(
+        repo, notes, src_file=src, cls_name="RuntimeContext", ns="Options", title="",
+        funcs=[
+            {"py": "__init__", "lean": "RuntimeContext_init", "kind": "mut", "arity": 7},
+            {"py": "raise_error", "kind": "mut", "arity": 1},
+            {"py": "collect_tmp_error", "kind": "mut", "arity": 2},
+            {"py": "clear_tmp_error", "kind": "mut", "arity": 1},
+            {"py": "handle_error", "kind": "mut", "arity": 3},
+        ],
+        externals={"Options"}, gate_ok=gate_ok)
+    body += _group_body(part)
+    return "\n".join(out + body + ["end Utv.Gen.Options", ""])
+
+
+def _group_body(text: str) -> list[str]:
+    """the definitions of a `gen_group` output, without its header and `end` line"""
+    lines = text.split("\n")
+    start = next(i for i, l in enumerate(lines) if l.startswith("variable {V : Type}")) + 2
+    end = max(i for i, l in enumerate(lines) if l.startswith("end Utv.Gen."))
+    return lines[start:end]
+
+
 def gen_field(repo: Path, notes: list, gate_ok: bool) -> str:
     return gen_group(
         repo, notes, src_file="utype/parser/field.py", cls_name="ParserField", ns="Field",
@@ -1213,6 +1270,7 @@ def main():
     files["tables.json"] = json.dumps(js, indent=1, sort_keys=True)
     unprov_ok = check_unprovided(repo, notes)
     files["Field.lean"] = gen_field(repo, notes, unprov_ok)
+    files["Options.lean"] = gen_options(repo, notes, unprov_ok)
     files["NOTES.txt"] = "\n".join(notes) + ("\n" if notes else "")
     for name, txt in files.items():
         p = outd / name
